@@ -82,6 +82,8 @@ Definition check_case (c : case) : bool :=
   | CRegex key s p =>
       opt_eqb ostr_eqb (steps_name key) s && ostr_eqb (parent_name key) p
   | CWorkflow steps o started =>
+      (* every compiled expression came from the real parser: it must be a grammar tree *)
+      forallb (fun st => forallb cel_expr_wf (step_trees st)) steps &&
       wobs_ok (prepare_workflow steps) o &&
       match prepare_workflow steps with
       | Done w => sset_eqb (started_steps w) started
